@@ -293,6 +293,15 @@ pub fn op_writer(session: &mut Session, cmd: &J) -> Result<J, String> {
 							drop(writer.take());
 							Ok(Ok(Some(usize::MAX)))
 						}
+						// the writer is dropped by an unwinding panic (the sink outlives it): Drop must still deliver the open block
+						"drop_panicking" => {
+							let w = writer.take().unwrap();
+							let _ = catch_unwind(AssertUnwindSafe(move || {
+								let _w = w;
+								panic!("unwinding with a live writer");
+							}));
+							Ok(Ok(Some(usize::MAX)))
+						}
 						other => Err(format!("unknown writer op {other}")),
 					}
 				}));
